@@ -329,6 +329,35 @@ def one_history(ctx, kind, factory, route, rng):
             bad = [k for k in probe_names if probe_after.get(k) != probe_before.get(k)]
             ctx.violation('mutation-visible-on-other-side', f'{kind} via {route}: after {name} on the {side}, eval({bad[0]!r}) on the other object gives {probe_after[bad[0]]} (before: {probe_before[bad[0]]})', case)
             return
+        # each side resolves aliases through its *own* table: a name the other side has just declared is unknown here, and every
+        # name declared here still reads the variable it points to
+        for side_obj, foreign in ((other, target), (target, other)):
+            own = side_obj.__dict__.get('aliases')
+            if not isinstance(own, dict):
+                continue
+            theirs = foreign.__dict__.get('aliases') if isinstance(foreign.__dict__.get('aliases'), dict) else {}
+            for alias in list(own) + [k for k in theirs if k not in own]:
+                ctx.count('alias_resolutions_probed')
+                try:
+                    got = ('ok', np.asarray(side_obj[alias]).tolist())
+                except Exception as e:
+                    got = ('exc', type(e).__name__)
+                if alias in own:
+                    tgt, hops = own[alias], 0
+                    while tgt in own and own[tgt] != tgt and hops < 10:
+                        tgt, hops = own[tgt], hops + 1
+                    try:
+                        want = ('ok', np.asarray(side_obj[tgt]).tolist()) if tgt in side_obj.__dict__['index'] else None
+                    except Exception:
+                        want = None
+                elif alias in side_obj.__dict__['index']:
+                    want = None
+                else:
+                    want = ('exc', 'KeyError')
+                if want is not None and got != want:
+                    ctx.violation('mutation-visible-on-other-side', f'{kind} via {route}: after {name} on the {side}, obj[{alias!r}] on the {"other" if side_obj is other else "same"} object gives {str(got)[:80]}; '
+                                                                    f'its own alias table ({dict(own)}) says {str(want)[:80]}', case)
+                    return
         dc = snap.diff(cls_before, snap.class_snapshot(type(a)))
         if dc:
             ctx.violation('mutation-visible-on-class', f'{kind}: {name} on an instance changed class-level state at {dc[:5]}', case)
